@@ -16,6 +16,7 @@ CONSTANTS
   MAXRESTART = 1
   UPDENDS = {3, 4}
   MAXUPD = 1
+  ADDS = {}
   SECONDBAD = FALSE
   FAILBUDGET = 99
 VIEW View
